@@ -259,3 +259,136 @@ func runC11_9(c *core.Ctx) {
 		}
 	}
 }
+
+func init() {
+	register(&core.Rule{ID: "C11.10", Prop: "C11", MinSites: 4,
+		Desc: "head and tail are nil together: started from a list whose head and tail are both nil or both set, each list primitive (pop, pushFront, pushBack, Reset) returns with the two fields again both nil or both set on every path – a tail left behind by the last pop makes the next pushFront/pushBack link new segments behind a node that is no longer in the list",
+		Run: runC11_10})
+}
+
+func runC11_10(c *core.Ctx) {
+	a := llAnchors(c)
+	if a == nil {
+		return
+	}
+	reset := getFn(c, a.pk, "Buffer.Reset")
+	prims := []*fn{fnOf(c, a.pop), fnOf(c, a.pushFront), fnOf(c, a.pushBack), reset}
+	const (
+		vNil = iota
+		vSet
+		vAny
+	)
+	enc := func(h, t int) int { return h*3 + t }
+	for _, f := range prims {
+		if f == nil || f.Decl.Body == nil {
+			continue
+		}
+		recv := f.recvVar()
+		fieldOf := func(e ast.Expr) *types.Var {
+			sel, ok := ast.Unparen(e).(*ast.SelectorExpr)
+			if !ok || flow.ObjOf(f.Info, sel.X) != types.Object(recv) {
+				return nil
+			}
+			return flow.FieldOf(f.Info, sel)
+		}
+		valueOf := func(e ast.Expr, h, t int) int {
+			e = ast.Unparen(e)
+			if flow.IsNil(f.Info, e) {
+				return vNil
+			}
+			if fl := fieldOf(e); fl == a.head {
+				return h
+			} else if fl == a.tail {
+				return t
+			}
+			if sel, ok := e.(*ast.SelectorExpr); ok && sel.Sel.Name == "next" {
+				return vAny // the successor of a node may or may not exist
+			}
+			if _, ok := e.(*ast.UnaryExpr); ok {
+				return vSet // &node{…}
+			}
+			if _, ok := e.(*ast.Ident); ok {
+				return vSet // a node variable: pushes are guarded by b != nil (C11.2), pops by head != nil
+			}
+			return vAny
+		}
+		var walk func(start int) (bad token.Pos, badState int)
+		walk = func(start int) (token.Pos, int) {
+			au := &flow.Auto{Start: start}
+			au.Node = func(b *flow.Block, i int, n ast.Node, s int) int {
+				h, t := s/3, s%3
+				if as, ok := n.(*ast.AssignStmt); ok && len(as.Lhs) == len(as.Rhs) {
+					nh, nt := h, t
+					for k, l := range as.Lhs {
+						switch fieldOf(l) {
+						case a.head:
+							nh = valueOf(as.Rhs[k], h, t)
+						case a.tail:
+							nt = valueOf(as.Rhs[k], h, t)
+						}
+					}
+					h, t = nh, nt
+				}
+				return enc(h, t)
+			}
+			au.Edge = func(e *flow.Edge, s int) int {
+				if e.Cond == nil || e.Tag != nil {
+					return s
+				}
+				x, y, op, ok := flow.Cmp(e.Cond)
+				if !ok || !flow.IsNil(f.Info, y) {
+					return s
+				}
+				h, t := s/3, s%3
+				isNil := (op == token.EQL) == e.Sense
+				want := vSet
+				if isNil {
+					want = vNil
+				}
+				switch fieldOf(x) {
+				case a.head:
+					if h != vAny && h != want {
+						return -1
+					}
+					h = want
+				case a.tail:
+					if t != vAny && t != want {
+						return -1
+					}
+					t = want
+				}
+				return enc(h, t)
+			}
+			sol := f.Graph().Run(au)
+			bad, badState := token.NoPos, 0
+			sol.AtExit(func(b *flow.Block, _ uint64) {
+				for _, s := range flow.States(sol.Out(b)) {
+					h, t := s/3, s%3
+					if (h == vNil && t == vNil) || (h == vSet && t == vSet) {
+						continue
+					}
+					if bad == token.NoPos {
+						bad, badState = b.Return.Pos(), s
+					}
+				}
+			})
+			return bad, badState
+		}
+		names := []string{"nil", "set", "possibly nil"}
+		okAll := true
+		for _, start := range []int{enc(vNil, vNil), enc(vSet, vSet)} {
+			if bad, st := walk(start); bad != token.NoPos {
+				okAll = false
+				from := "an empty list"
+				if start == enc(vSet, vSet) {
+					from = "a non-empty list"
+				}
+				c.Violate(f.Name, "head and tail nil together", bad, "starting from "+from+" this return is reachable with head "+names[st/3]+" and tail "+names[st%3]+": the two ends of the list disagree about emptiness, so the next push links its segment where Read/Peek/Pop/WriteTo never look (bytes lost, Buffered() still counting them)")
+				break
+			}
+		}
+		if okAll {
+			c.Ok(f.Name, "head and tail nil together", f.Decl.Pos(), "both start shapes lead to a consistent shape on every return")
+		}
+	}
+}
